@@ -176,6 +176,18 @@ CHECKS["C16"] = (
     "Other exception types (RuntimeError ...) are counted as unclassified and listed, not judged. Thorough tier: atheris "
     "targets fuzz/fuzz_rule.py and fuzz/fuzz_fll.py, seeded and empty corpus, -seed=VERIF_SEED.", "§5 C16")
 
+CHECKS["C15"] = (
+    "Hypothesis-generated engines and components: execute the import statement and the exported Python code in a fresh namespace, compare repr, FLL export and outputs of the rebuilt object with the original (round-trip + differential)",
+    "Generated engines (as in C14, with arbitrary finite doubles, +-inf, NaN defaults, quotes/backslashes in descriptions, "
+    "Function terms with their own variables map, disabled components, non-default resolutions/types/activation "
+    "parameters) x aliases {fl, '', *, custom} x {repr, PythonExporter plain, encapsulated} x {formatted, unformatted}: "
+    "the code must execute, the rebuilt engine's repr and FLL export must equal the original's and, under the "
+    "statement's precondition on heights/weights, its outputs must be bit-identical on generated rows; every component "
+    "(variables, terms, norms, defuzzifiers, activation methods, rule blocks, rules) is also exported and rebuilt on its "
+    "own.",
+    "Rules are generated enabled (Rule.__repr__ cannot carry the flag); formatted variants (black) are a minority.",
+    "§5 C15")
+
 NOT_APPLICABLE = {}
 
 
